@@ -437,24 +437,28 @@ def elementsHelper : STree E → List E → List E
 /-- `elements` (set.sam:364) -/
 def elements (t : STree E) : List E := elementsHelper t []
 
-/-- `tryJoin` (set.sam:498), fuelled through `union` -/
+/-- left half of `tryJoin`'s condition: `l.isEmpty() || l.max().unwrap().compare(v) < 0`
+(`none` = `unwrap` panic) -/
+def okLeft (cmp : E → E → Int) (l : STree E) (v : E) : Option Bool :=
+  if isEmpty l then some true else
+    match max l with
+    | none => none
+    | some m => some (cmp m v < 0)
+
+/-- right half: `r.isEmpty() || v.compare(r.min().unwrap()) < 0` -/
+def okRight (cmp : E → E → Int) (r : STree E) (v : E) : Option Bool :=
+  if isEmpty r then some true else
+    match min r with
+    | none => none
+    | some m => some (cmp v m < 0)
+
+/-- `tryJoin` (set.sam:498), fuelled through `union`; `&&` short-circuits. -/
 def tryJoin (cmp : E → E → Int) (fuel : Nat) (l : STree E) (v : E) (r : STree E) :
     Option (Option (STree E)) :=
-  let okL : Option Bool :=
-    if isEmpty l then some true else
-      match max l with
-      | none => none
-      | some m => some (cmp m v < 0)
-  match okL with
+  match okLeft cmp l v with
   | none => some none
   | some bl =>
-    let okR : Option Bool :=
-      if !bl then some false
-      else if isEmpty r then some true else
-        match min r with
-        | none => none
-        | some m => some (cmp v m < 0)
-    match okR with
+    match (if !bl then some false else okRight cmp r v) with
     | none => some none
     | some br =>
       if bl && br then some (join l v r)
@@ -484,6 +488,77 @@ def map (cmp : E → E → Int) (refEq : E → E → Bool) (f : E → E) (fuel :
       | some (some newR) =>
         if l = newL ∧ refEq v newV ∧ r = newR then some (some (.node h v l r))
         else tryJoin cmp fuel newL newV newR
+
+/-! ### `compare` / `equal` / `iter` / `disjoint` -/
+
+/-- `NodeEnumerationHelper<E, Set<E>>(End, More(E, Set<E>, …))` (set.sam:6) -/
+inductive Enum (E : Type) where
+  | done : Enum E
+  | more (v : E) (r : STree E) (e : Enum E) : Enum E
+
+/-- `NodeEnumerationHelper.cons(set, helper)` (set.sam:10) -/
+def Enum.cons : STree E → Enum E → Enum E
+  | .empty, e => e
+  | .leaf v, e => .more v .empty e
+  | .node _ v l r, e => Enum.cons l (.more v r e)
+
+def card : STree E → Nat
+  | .empty => 0
+  | .leaf _ => 1
+  | .node _ _ l r => card l + card r + 1
+
+def Enum.size : Enum E → Nat
+  | .done => 0
+  | .more _ r e => 1 + card r + Enum.size e
+
+omit [DecidableEq E] in
+theorem Enum.size_cons (t : STree E) (e : Enum E) : (Enum.cons t e).size = e.size + card t := by
+  induction t generalizing e with
+  | empty => simp [Enum.cons, card]
+  | leaf v => simp [Enum.cons, Enum.size, card]; omega
+  | node h v l r ihl _ => simp [Enum.cons, ihl, Enum.size, card]; omega
+
+/-- `compareHelper` (set.sam:214) (returned `c` instead of `c1` before fix 9a6033f). -/
+def compareHelper (cmp : E → E → Int) (f : E → E → Int) : Enum E → Enum E → Int
+  | .done, .done => 0
+  | .done, .more _ _ _ => -1
+  | .more _ _ _, .done => 1
+  | .more v1 r1 e1, .more v2 r2 e2 =>
+    let c := cmp v1 v2
+    if c ≠ 0 then c
+    else
+      let c1 := f v1 v2
+      if c1 ≠ 0 then c1 else compareHelper cmp f (Enum.cons r1 e1) (Enum.cons r2 e2)
+termination_by e1 _ => e1.size
+decreasing_by (have := Enum.size_cons r1 e1; simp only [Enum.size]; omega)
+
+/-- `compare` (set.sam:207) -/
+def compare (cmp : E → E → Int) (f : E → E → Int) (a b : STree E) : Int :=
+  compareHelper cmp f (Enum.cons a .done) (Enum.cons b .done)
+
+/-- `equalHelper` (set.sam:250) -/
+def equalHelper (cmp : E → E → Int) (f : E → E → Bool) : Enum E → Enum E → Bool
+  | .done, .done => true
+  | .done, .more _ _ _ => false
+  | .more _ _ _, .done => false
+  | .more v1 r1 e1, .more v2 r2 e2 =>
+    cmp v1 v2 = 0 && f v1 v2 && equalHelper cmp f (Enum.cons r1 e1) (Enum.cons r2 e2)
+termination_by e1 _ => e1.size
+decreasing_by (have := Enum.size_cons r1 e1; simp only [Enum.size]; omega)
+
+/-- `equal` (set.sam:243) -/
+def equal (cmp : E → E → Int) (f : E → E → Bool) (a b : STree E) : Bool :=
+  equalHelper cmp f (Enum.cons a .done) (Enum.cons b .done)
+
+/-- `iter` (set.sam:279), callback as a state transformer -/
+def iter {σ : Type} (f : E → σ → σ) : STree E → σ → σ
+  | .empty, s => s
+  | .leaf v, s => f v s
+  | .node _ v l r, s => iter f r (f v (iter f l s))
+
+/-- `disjoint` (set.sam:138) -/
+def disjoint (cmp : E → E → Int) (a b : STree E) : Option Bool :=
+  (intersection cmp a b).map isEmpty
 
 /-- in-order list of elements -/
 def abs : STree E → List E
